@@ -585,8 +585,19 @@ type cloneRow struct {
 // initialised with such a literal), the declared fields and the fields the function sets.
 func cloneRows(p *pkgSrc) []cloneRow {
 	var rows []cloneRow
+	// the clone functions: by name (clone*), and by use - what a method called Clone reaches
+	byUse := map[string]bool{}
 	for _, fd := range p.allFuncs() {
-		if !strings.HasPrefix(fd.Name.Name, "clone") || fd.Body == nil {
+		if fd.Name.Name == "Clone" && fd.Body != nil {
+			for _, g := range reachFuncs(p, fd, 4, map[string]bool{}) {
+				if g != fd {
+					byUse[g.Name.Name] = true
+				}
+			}
+		}
+	}
+	for _, fd := range p.allFuncs() {
+		if !(strings.HasPrefix(fd.Name.Name, "clone") || byUse[fd.Name.Name]) || fd.Body == nil {
 			continue
 		}
 		set := map[string]map[string]bool{} // type -> fields set
